@@ -22,6 +22,9 @@ CHECKS = {
     "C14": {"units": [rapid("routinex", "TestC14", 10000, 60000)]},
     "C06": {"units": [rapid("keyedx", "TestC06Keyed", 6000, 40000), rapid("keyedx", "TestC06RefCount", 6000, 40000)]},
     "C07": {"units": [rapid("keyedx", "TestC07", 8000, 50000)]},
+    "C08": {"units": [rapid("refcountx", "TestC08", 8000, 50000)]},
+    "C09": {"units": [rapid("refcountx", "TestC09", 8000, 50000)]},
+    "C10": {"units": [rapid("refcountx", "TestC10", 8000, 50000)]},
     "C11": {"units": [rapid("promisex", "TestC11", 10000, 80000)]},
     "C15": {"units": [rapid("ccontx", "TestC15", 10000, 80000)]},
     "C16": {"units": [rapid("promisex", "TestC16", 10000, 80000)]},
